@@ -31,7 +31,7 @@ VERIFICATION_MSGS = (
     'fails to satisfy `callee.requires(args)`', 'failed precondition', 'split assertion failure',
     'split precondition failure', 'split postcondition failure', 'possible truncation',
     'constructed value may fail to meet its declared type invariant', 'cannot show invariant',
-    'possible index out of bounds',
+    'possible index out of bounds', 'precondition not met',
 )
 UNDECIDED_MSGS = ('rlimit', 'resource limit', 'timed out', 'Verus Internal Error', 'not supported',
                   'does not yet support', 'panicked')
